@@ -211,6 +211,12 @@ func TestWorker(t *testing.T) {
 			break
 		}
 	}
+	if len(distinctSchedules) > 0 {
+		if out.Extra == nil {
+			out.Extra = map[string]any{}
+		}
+		out.Extra["distinct_schedule_choice_sequences(this worker)"] = len(distinctSchedules)
+	}
 	write()
 }
 
